@@ -2,19 +2,20 @@
 //@ enforce: consider_ctl
 //@ replace: xv_init_stub xv_connect_stub xv_server_stub xv_close_stub xv_cleanup_stub xv_accept_stub xv_send_stub xv_receive_stub xv_update_stub xv_finish_stub xv_enable_ctl_stub xv_priv_size_stub ctl_process ctl_create ctl_destroy get_next_sock_id
 //@ props: C14
-//@ expect: postcondition>=4 canary=6
+//@ expect: postcondition>=4 canary=8
 #include "_unit.h"
 void harness(void)
 {
     xv_ghost_havoc();
     xv_tpcore_havoc();
     struct xcm_socket *s; bool perm, temp;
-    long c0 = xv_ctlp_calls, q0 = xv_seq;
     consider_ctl(s, perm, temp);
-    if (xv_ctlp_calls == c0 && perm) XV_CANARY("permanent failure: never polled");
-    if (xv_ctlp_calls == c0 && !perm && !temp) XV_CANARY("progress, poll not yet due");
-    if (xv_ctlp_calls == c0 + 1 && !perm && !temp) XV_CANARY("progress, 257th call: polled");
-    if (xv_ctlp_calls == c0 && !perm && temp) XV_CANARY("EAGAIN, poll not yet due");
-    if (xv_ctlp_calls == c0 + 1 && !perm && temp && xv_seq == q0 + 1) XV_CANARY("EAGAIN, 5th wake-up at the latest: polled");
-    if (xv_seq == q0 && !perm) XV_CANARY("no control interface or not due");
+    if (!xv_g_ctl) XV_CANARY("no control interface");
+    if (xv_g_ctl && perm) XV_CANARY("permanent failure");
+    if (xv_g_ctl && !perm && !temp && xv_g_skipped == 0) XV_CANARY("progress, counter 0");
+    if (xv_g_ctl && !perm && !temp && xv_g_skipped == 255) XV_CANARY("progress, counter 255: 256 skipped, not yet due");
+    if (xv_g_ctl && !perm && !temp && xv_g_skipped == 256) XV_CANARY("progress, counter 256: due");
+    if (xv_g_ctl && !perm && temp && xv_g_skipped == 192) XV_CANARY("EAGAIN, counter 192: 4th wake-up, not yet due");
+    if (xv_g_ctl && !perm && temp && xv_g_skipped == 193) XV_CANARY("EAGAIN, counter 193: due");
+    if (xv_g_ctl && !perm && temp && xv_g_skipped == 256) XV_CANARY("EAGAIN, counter 256: due");
 }
